@@ -10,7 +10,7 @@ import ast
 from typing import Dict, List, Optional, Set, Tuple
 
 from . import core
-from .shared_state import (CacheInfo, SharedWrite, World, global_tally_problems, lazy_constant, published_before, recognise_cache, uses_of_attribute, value_dependencies, write_is_definite)
+from .shared_state import (CacheInfo, SharedWrite, World, locks_at, generic_setter, global_tally_problems, lazy_constant, published_before, recognise_cache, uses_of_attribute, value_dependencies, write_is_definite)
 
 CACHE_KINDS = {"subscript-store:key", "subscript-store:const", "method:append"}
 
@@ -86,6 +86,18 @@ def classify(ctx, w: World, threads: bool = True):
     return caches, counters, bad
 
 
+def _passed_on(model, fq: str, node: ast.AST) -> bool:
+    """the attribute is only handed to a call as an argument (its content is looked at by the callee, under whatever lock that holds)"""
+    fi = model.funcs.get(fq)
+    if fi is None:
+        return False
+    for c in ast.walk(fi.node):
+        if isinstance(c, ast.Call) and any(a is node for a in c.args) and not (isinstance(c.func, ast.Name) and c.func.id in (
+                "len", "list", "tuple", "sorted", "iter", "enumerate", "bool", "any", "all", "sum", "min", "max", "set", "dict", "zip", "reversed")):
+            return True
+    return False
+
+
 def check_counter(w: World, attr: str) -> List[str]:
     problems = []
     for fq, node, role in uses_of_attribute(w.model, attr):
@@ -113,6 +125,7 @@ def run(ctx):
     ctx.assumptions = ["callers do not mutate package internals (e.g. a5.core.origin.origins) from outside the package"]
     _positive_control(ctx)
     w = World(ctx)
+    w.threads_view = True
     for f, d in w.unknown_decorators:
         ctx.unk("C16.0", f"{f} is wrapped by the decorator @{d}", f"{w.rel_of(f)}:{w.model.funcs[f].node.lineno}",
                 "the effects of the wrapper are not modelled; obligations that involve this function are not decided")
@@ -128,6 +141,31 @@ def run(ctx):
         if vague:
             ctx.unk("C16.1", f"shared object {sw.name} may be written by {sw.owner}", where,
                     f"`{sw.origin_text}` in {sw.origin_func} is reached through a call whose receiver class is not known: {vague}")
+            continue
+        # every statement that writes the object holds one and the same lock: the writes are serialised
+        held = None
+        for _k, line_, _t in sw.records:
+            here = locks_at(w.model, sw.origin_func, line_)
+            held = here if held is None else (held & here)
+        if held:
+            lk = sorted(held)[0]
+            loose = []
+            is_method = any(sw.field in ci_.methods for ci_ in w.model.classes.values()) if sw.field else False
+            if sw.field and not is_method:
+                for fq, node, role in uses_of_attribute(w.model, sw.field):
+                    if fq in w.reach and not fq.endswith(".__init__") and lk not in locks_at(w.model, fq, node.lineno) \
+                            and not _passed_on(w.model, fq, node):
+                        loose.append((fq, node.lineno))
+            steps = len({l_ for _k, l_, _t in sw.records})
+            if loose and steps > 1:
+                ctx.bad("C16.1", f"shared object {sw.name} is built in several steps under the lock {lk} but read without it", where,
+                        f"`{sw.origin_text}` in {sw.origin_func} (and {steps - 1} more writing statements) hold {lk}; {loose[0][0]} line {loose[0][1]} "
+                        f"reads .{sw.field} without it and can see the object half-built (reachable via {w.path_to(sw.owner)})")
+            else:
+                ctx.unk("C16.1", f"shared object {sw.name} is written under the lock {lk}", where,
+                        f"`{sw.origin_text}` in {sw.origin_func}: every writing statement holds {lk}" +
+                        ("" if not loose else f" (read without it at {loose[0][0]} line {loose[0][1]}: a single complete store)") +
+                        "; the accesses are serialised, and whether what a call reads there depends on earlier calls is the question C17 decides")
             continue
         if write_is_definite(w.model, sw):
             ctx.bad("C16.1", f"shared object {sw.name} is written by {sw.owner}", where,
@@ -145,6 +183,10 @@ def run(ctx):
         problems = list(ci.problems)
         dep, _ = value_dependencies(w.model, ci)
         extra = dep - ci.key_vars
+        if extra and generic_setter(w.model, ci.func, set(ci.key_vars), set(extra)):
+            ctx.unk("C16.2", f"cache {name}: key and value are both handed in by the caller of {ci.func}", where,
+                    "whether racing fills store equal values depends on the call sites: not decided")
+            continue
         if extra:
             problems.append(f"the cached value depends on {sorted(extra)} which the key `{core.src(ci.key_expr)}` is not computed from")
         # (iii) the cached computation must not go through non-admitted shared state
